@@ -26,7 +26,8 @@ close_session == false (no retransmission pending); (g) in ReliableMessage::post
 in Err(Duplicate): a dropped stale-ACK message cannot change the acknowledgement a pending retransmission piggy-backs.
 """
 CLAUSES = ['a: message counter reused only for retransmissions', 'c: retransmittable builders are idempotent (once-guards)', 'd: session ids unique among live sessions',
-           'e: exchange ids unique among live exchanges', 'f: transport-generated packets never borrow an exchange\'s retransmission counter', 'g: dropped duplicates leave the piggy-backed ACK unchanged']
+           'e: exchange ids unique among live exchanges', 'f: transport-generated packets never borrow an exchange\'s retransmission counter', 'g: dropped duplicates leave the piggy-backed ACK unchanged',
+           'h: a message header is built from a reset header, never on top of the previous user of the shared TX packet']
 NOT_DECIDED = ['bit-for-bit identity of retransmissions at run time', 'monotonicity under every schedule', 'piggy-backed acknowledgement stability against a peer that omits the ACK flag on a new message']
 MIN_OBLIGATIONS = {'q': 20, 'd': 20, 'r': 16}
 
@@ -36,6 +37,40 @@ RE = 'transport::mrp::RetransEntry'
 NONIDEM = ('crypto::Crypto::rand', 'crypto::Crypto::weak_rand', 'crypto::SigningSecretKey::sign', 'crypto::Crypto::generate_secret_key', 'crypto::Crypto::generate_ec_scalar',
            SESSIONS + '::get_next_sess_id', SESSIONS + '::get_next_exch_id', 'sc::case::casep::CaseP::update_tt', 'sc::pase::spake2p::Spake2P::finish_context',
            'embassy_time::instant::Instant::now')
+
+
+def _once_guard(F, clo, cb, ct):
+    """is the call ct (in body cb of the builder tree rooted at closure clo) behind a once-guard - a captured flag that is tested before
+    and set after it, or an Option::take on a captured option - in cb or in an enclosing closure of the tree?  -> (ok, detail)"""
+    ok = False
+    detail = ''
+    chain = [cb]
+    cur = cb
+    while cur.fn != clo:
+        parent = F.bodies.get(cur.fn.rsplit('::{closure#', 1)[0])
+        if parent is None:
+            break
+        chain.append(parent)
+        cur = parent
+    site_bb = {cb.fn: ct.bb}
+    for up in chain[1:]:
+        # the block in `up` that builds / passes the inner closure
+        inner = chain[chain.index(up) - 1]
+        bbs = [i for i, j, s, c in up.closures_built() if c == inner.fn]
+        site_bb[up.fn] = bbs[0] if bbs else None
+    for body_ in chain:
+        sb = site_bb.get(body_.fn)
+        if sb is None:
+            continue
+        for name, (edges, sets) in _upvar_guards(body_).items():
+            if not edges:
+                continue
+            if sb in prims.reach(body_, (0,), cut_edges=edges):
+                continue
+            if name.endswith('.take()') or (sets and not prims.always_followed_by(body_, [sb], sets, exits=ok_return_bbs(body_) or None)):
+                ok = True
+                detail = f'once-guard `{name}` in {body_.fn.split("::")[-1]}'
+    return ok, detail
 
 
 def _upvar_guards(body):
@@ -94,6 +129,12 @@ def check(R):
         adds = [s for i, j, s in gm.stmts() if s[1].get('op') == 'bin' and s[1].get('b') in ('Add', 'AddWithOverflow')]
         R.expect('P6', gm.fn, 'the counter advances by exactly one per fresh message', len(adds) == 1 and adds[0][1]['a'][1].get('k', {}).get('v') == 1 and mentions(prims.sources(gm, adds[0][1]['a'][0]), 'msg_ctr'),
                  'msg_ctr += 1', f'{len(adds)} additions')
+        # ... and the sum is stored as it is: nothing masks, reduces or re-bases it (a counter that wraps inside its seeding range - 28 bits -
+        # repeats values, i.e. nonces, within the life of the session; the 32-bit overflow is the session's end, not an event to survive)
+        other = sorted({s[1].get('b') for i, j, s in gm.stmts() if s[1].get('op') == 'bin' and s[1].get('b') not in ('Add', 'AddWithOverflow')} |
+                       {t.callee_names()[0].split('::')[-1] for t in gm.calls() if not any(n.endswith(('::checked_add', '::expect', '::unwrap')) for n in t.callee_names())})
+        R.expect('P10', gm.fn, 'the incremented counter is stored unreduced (no mask / modulo / other arithmetic on it)', not other,
+                 'self.msg_ctr <- self.msg_ctr + 1', f'further operations on the counter: {other}')
         rd = prims.result_defs(gm)
         w = [i for i, j, s in gm.field_writes('msg_ctr:' + SESS)]
         R.expect('P10', gm.fn, 'the value handed out is the counter before the increment', all(k == 'expr' and mentions(prims.sources(gm, p['a'][0]), 'msg_ctr') for bb, k, p in rd if k != 'const') and bool(rd) and bool(w),
@@ -129,6 +170,7 @@ def check(R):
     with R.clause('c'):
         sites = 0
         guarded = 0
+        builders = []
         for b in sorted(F.bodies.values(), key=lambda x: x.fn):
             if not b.focus or 'dm::clusters::decl' in b.fn or 'transport::exchange::Exchange::send_with' not in b.calls_summary:
                 continue
@@ -143,6 +185,7 @@ def check(R):
                     R.note(f'{b.fn}: send_with at {b.where(t.bb)} is given a builder that is not a local closure (forwarded parameter)')
                     continue
                 tree = [F.bodies[clo]] + [x for x in F.bodies.values() if x.fn.startswith(clo + '::{closure#')]
+                builders.append((b, t, clo, tree))
                 for cb in tree:
                     if not cb.focus:
                         continue
@@ -163,41 +206,39 @@ def check(R):
                             continue
                         if any(n.startswith(clo + '::{closure#') for n in names):
                             continue   # the nested closure is analysed itself
-                        # find a once-guard in cb (or in an enclosing closure of the builder tree that leads here)
-                        ok = False
-                        detail = ''
-                        chain = [cb]
-                        cur = cb
-                        while cur.fn != clo:
-                            parent = F.bodies.get(cur.fn.rsplit('::{closure#', 1)[0])
-                            if parent is None:
-                                break
-                            chain.append(parent)
-                            cur = parent
-                        site_bb = {cb.fn: ct.bb}
-                        for up in chain[1:]:
-                            # the block in `up` that builds / passes the inner closure
-                            inner = chain[chain.index(up) - 1]
-                            bbs = [i for i, j, s, c in up.closures_built() if c == inner.fn]
-                            site_bb[up.fn] = bbs[0] if bbs else None
-                        for body_ in chain:
-                            sb = site_bb.get(body_.fn)
-                            if sb is None:
-                                continue
-                            for name, (edges, sets) in _upvar_guards(body_).items():
-                                if not edges:
-                                    continue
-                                if sb in prims.reach(body_, (0,), cut_edges=edges):
-                                    continue
-                                if name.endswith('.take()') or (sets and not prims.always_followed_by(body_, [sb], sets, exits=ok_return_bbs(body_) or None)):
-                                    ok = True
-                                    detail = f'once-guard `{name}` in {body_.fn.split("::")[-1]}'
+                        ok, detail = _once_guard(F, clo, cb, ct)
                         guarded += 1 if ok else 0
                         R.expect('P2', cb.fn, f'non-idempotent {hit.split("::")[-1]} (via {names[0].split("::")[-1]}) in a retransmittable builder runs at most once', ok, detail,
                                  f'{names[0]} at {cb.where(ct.bb)} reaches {hit}; the builder closure may be called again for a retransmission, so the re-sent message (same counter, same nonce) would differ',
                                  cb.where(ct.bb))
         R.floor('send_with call sites analysed', sites, 20)
         R.floor('guarded non-idempotent calls in builders', guarded, 4)
+
+        # a builder may run again for a retransmission: what it read the first time must still read the same.  The one piece of state a
+        # builder itself advances (behind its once-guard) is the handshake transcript - so a builder that calls update_tt must not, outside
+        # that guard, derive anything from the running transcript (current_tt_hash): the second build would see its own first message in it
+        TT_W, TT_R = 'sc::case::casep::CaseP::update_tt', 'sc::case::casep::CaseP::current_tt_hash'
+        advancing = 0
+        for (b, t, clo, tree) in builders:
+            def reaches(ct, target):
+                for n in ct.callee_names():
+                    if n == target or target in prims.reachable_fns(F, [n], depth=3, through_traits=False):
+                        return n
+                return None
+            w = [(cb, ct) for cb in tree if cb.focus for ct in cb.calls() if reaches(ct, TT_W) and not any(n.startswith(clo + '::{closure#') for n in ct.callee_names())]
+            if not w:
+                continue
+            advancing += 1
+            rd = [(cb, ct, reaches(ct, TT_R)) for cb in tree if cb.focus for ct in cb.calls()
+                  if reaches(ct, TT_R) and not reaches(ct, TT_W) and not any(n.startswith(clo + '::{closure#') for n in ct.callee_names())]
+            if not rd:
+                R.ok('P2', clo, 'a builder that advances the handshake transcript derives nothing from the running transcript', 'no current_tt_hash reachable from the builder', b.where(t.bb))
+            for cb, ct, via in rd:
+                ok, detail = _once_guard(F, clo, cb, ct)
+                R.expect('P2', cb.fn, 'a builder that advances the handshake transcript derives nothing from the running transcript outside its once-guard', ok, detail,
+                         f'{via} at {cb.where(ct.bb)} reads the running transcript (current_tt_hash) and the same builder hashes its own message into it (update_tt): when the builder '
+                         'runs again for a retransmission the value differs, so the re-sent message is not the one that was lost', cb.where(ct.bb))
+        R.floor('builders that advance the transcript', advancing, 1)
 
     # ---- d --------------------------------------------------------------------
     with R.clause('d'):
@@ -290,6 +331,34 @@ def check(R):
                 te |= a_
                 fe |= b_
             R.cut('P2', b, 'send a stand-alone ACK through the dropped exchange', [t.bb], 'the exchange has no pending retransmission (close_session == false)', fe)
+
+    # ---- h --------------------------------------------------------------------
+    with R.clause('h'):
+        # the single TX packet is shared by every exchange: the header of a message must not inherit anything from the previous user of
+        # the buffer.  MessageMeta::set_into and Session::pre_send only SET the acknowledgement flag / counter when there is one to send,
+        # so TxMessage::complete has to start from a header whose two halves were both overwritten whole - otherwise a message with
+        # nothing to acknowledge carries whatever ACK the buffer saw last, and its retransmission (built after other traffic) another one
+        PHDR = 'transport::packet::PacketHdr'
+        tc = R.body('transport::exchange::TxMessage::complete')
+
+        def whole_writes(body, fld):
+            return [i for i, j, st in body.stmts() if st[0] and st[0][-1] == '.' + fld + ':' + PHDR and not body.is_cleanup(i)]
+        fills = call_bbs(tc, 'transport::exchange::MessageMeta::set_into')
+        ps_clo = closure_in(R, tc.fn, ['Session::pre_send'])
+        fills += [t.bb for t in closure_arg_sites(tc, ps_clo.fn)]
+        R.floor('header filling sites in TxMessage::complete (set_into, with_state(pre_send))', len(fills), 2)
+        for fld in ('plain', 'proto'):
+            resets = whole_writes(tc, fld)
+            for t in tc.calls():
+                for n in t.callee_names():
+                    cb_ = F.bodies.get(n)
+                    if cb_ is not None and cb_.focus and whole_writes(cb_, fld) and not prims.precedes(cb_, whole_writes(cb_, fld), cb_.ret_blocks()):
+                        resets.append(t.bb)
+            miss = prims.precedes(tc, resets, fills) if resets else fills
+            R.expect('P3', tc.fn, f'the {fld} header is overwritten whole before the message\'s own values are filled in', not miss,
+                     f'{len(resets)} whole write(s) of header.{fld} precede set_into / pre_send on every path',
+                     f'header.{fld} is filled in at {[tc.where(x) for x in miss][:2]} without having been reset: fields the message does not set (the ACK flag and counter of a message '
+                     'with nothing to acknowledge) keep the values of whatever used the shared TX packet last', tc.where(fills[0]))
 
     # ---- g --------------------------------------------------------------------
     with R.clause('g'):
